@@ -203,7 +203,7 @@ def startClients (s : USys) (progs : List (Prog String)) : UCRun :=
   progs.foldl (fun (acc : UCRun) p =>
     let i := acc.sys.clients.length
     let (a', c', names) := ({ prog := p } : UClient).settle acc.sys.abs acc.sys.clock
-    { sys := { acc.sys with abs := a', clients := acc.sys.clients ++ [c'] }, calls := acc.calls ++ names.map fun n => s!"{i}:{n}" }) { sys := s, calls := [] }
+    { sys := { acc.sys with abs := a', clients := acc.sys.clients ++ [{ c' with started := true }] }, calls := acc.calls ++ names.map fun n => s!"{i}:{n}" }) { sys := s, calls := [] }
 
 def clientResults (s : USys) : String :=
   ";".intercalate (s.clients.map fun c => if c.dead then "crashed" else (c.prog.result?).getD "hung")
@@ -235,7 +235,7 @@ def modelRun (cfg : UCfg) (draws : Nat → Int) (initS clientS ieff : String) : 
       if x.2 then { acc with sys := { acc.sys with clients := acc.sys.clients ++ [c0] } }
       else
         let (a', c', names) := c0.settle acc.sys.abs acc.sys.clock
-        { sys := { acc.sys with abs := a', clients := acc.sys.clients ++ [c'] }, calls := acc.calls ++ names.map fun n => s!"{i}:{n}" }) { sys := s0, calls := [] }
+        { sys := { acc.sys with abs := a', clients := acc.sys.clients ++ [{ c' with started := true }] }, calls := acc.calls ++ names.map fun n => s!"{i}:{n}" }) { sys := s0, calls := [] }
     match replay start.sys (ieff.splitOn ",") with
     | some run =>
       let calls := start.calls ++ run.calls
